@@ -1698,7 +1698,21 @@ fn gen_tree(c: &mut Ch, flavour: Flavour) -> Tree {
             ),
             _ => (format!("u{i}.slice"), if sel < 238 { Content::Valid } else { Content::Binary }),
         };
-        let path = join(&t.dirs[parent].path, &name);
+        let mut path = join(&t.dirs[parent].path, &name);
+        // now and then a name that differs from an earlier file's only in the case of its first
+        // letter, in the same directory: two files on a case-sensitive file system
+        if matches!(content, Content::Valid) && name.starts_with('a') && c.pick(6) == 0 {
+            if let Some((earlier, _)) = file_entries.iter().find(|(p, _)| p.rsplit('/').next().map(|b| b.starts_with('a') && b.ends_with(".slice")).unwrap_or(false)) {
+                let (dir, base) = match earlier.rsplit_once('/') {
+                    Some((d, b)) => (format!("{d}/"), b.to_owned()),
+                    None => (String::new(), earlier.clone()),
+                };
+                let variant = format!("{dir}A{}", &base[1..]);
+                if !file_entries.iter().any(|(p, _)| *p == variant) {
+                    path = variant;
+                }
+            }
+        }
         t.ops.push(Op::File {
             path: path.clone(),
             content,
